@@ -5,6 +5,7 @@ from ..core import Result, HarnessBug, load_known
 from ..vm import Prog, expect_ok, expect_exc, lit_repr
 
 ID = "C19"
+ALT_BUILD = True          # a quarter of the workers run the gcc -O0 build (core.py)
 LEVEL = "exploration"
 BUDGET = {"quick": 1200, "thorough": 240000}
 RULE = ("case = (way of obtaining an object) x (element type Int|Float|String|Ref|Probe|Tuple) x (list of freeing / reallocating "
